@@ -29,15 +29,22 @@ PlainCase(c) == [route |-> c.route, field |-> c.field, mut |-> c.mut]
 SigOf(e) ==
     CASE e.role = "order" -> QualSig(e.tx.q)
       [] e.role = "orig"  -> "good"
+      [] e.role = "replay" -> "good"
       [] e.role = "mut"   -> SigOfClass(ClassOf(PlainCase(e.case)))
 
 \* the event in the shape P expects
 Ev(e) == IF e.ev = "commit" THEN [ev |-> "commit", ok |-> TRUE]
+         ELSE IF e.ev = "event" THEN [ev |-> "event", by |-> e.by, ok |-> e.ok]
          ELSE [ev |-> "submit", mode |-> e.mode, tx |-> e.tx, sig |-> SigOf(e), ok |-> e.ok]
 
 \* what identifies a failing step
 ClassName(e) ==
     IF e.ev = "commit" THEN "-"
+    ELSE IF e.ev = "event" THEN e.kind
+    \* contract creations inside a batch: one class per position, whatever the transaction type
+    ELSE IF e.role \in {"mut", "replay"} /\ e.case.field = "batch" /\ e.case.mut \in CreateMuts
+         THEN "eth:batch:" \o e.case.mut \o (IF e.role = "replay" THEN ":replay" ELSE "")
+    ELSE IF e.role = "replay" THEN CaseKey(e.case) \o ":replay"
     ELSE IF e.role = "mut" THEN CaseKey(e.case)
     ELSE IF e.role = "orig" THEN e.tx.route \o ":original:" \o NonceClass(e.tx, e.pre, executed)
     ELSE e.tx.route \o ":" \o e.tx.q \o ":" \o NonceClass(e.tx, e.pre, executed)
@@ -64,6 +71,12 @@ TraceNext ==
                  /\ UNCHANGED <<viol, div, seen, acc>>
             [] e.ev = "setup" ->
                  UNCHANGED <<viol, div, seen, acc, nscn, executed>>
+            [] e.ev = "event" ->
+                 /\ viol' = viol \cup {Sig(k, ClassName(e), e) : k \in Broken(Ev(e), e.pre, e.post, executed)}
+                 /\ div' = div \cup (LET r == MResult(MState(e.pre), "event", [kind |-> e.kind, target |-> e.target, by |-> e.by]) IN
+                                     IF r.post = MState(e.post) THEN {}
+                                     ELSE {[ev |-> "event", class |-> e.kind, scn |-> e.scn, line |-> l, what |-> "post-state"]})
+                 /\ UNCHANGED <<seen, acc, nscn, executed>>
             [] e.ev = "commit" ->
                  /\ viol' = viol \cup {Sig(k, "-", e) : k \in Broken(Ev(e), e.pre, e.post, executed)}
                  /\ div' = div \cup (IF e.post.cseq = e.post.seq THEN {}
@@ -72,7 +85,7 @@ TraceNext ==
             [] e.ev = "submit" ->
                  /\ nscn' = nscn
                  /\ viol' = viol \cup {Sig(k, ClassName(e), e) : k \in Broken(Ev(e), e.pre, e.post, executed)}
-                 /\ executed' = IF e.mode = "deliver" /\ e.ok THEN executed \cup {e.tx.id} ELSE executed
+                 /\ executed' = IF e.mode = "deliver" /\ e.ok THEN executed \cup ExecIds(e.tx) ELSE executed
                  /\ seen' = IF e.role = "mut" /\ e.mode = "deliver" THEN seen \cup {PlainCase(e.case)} ELSE seen
                  /\ acc' = Bump(acc, AccKey(e))
                  /\ div' = div
